@@ -32,7 +32,7 @@ def items(seed):
     X, I = G.AceX, PR.Item  # noqa
     return [
         I("h1", None, "= alpha, x"), I("h2", None, "= beta"), I("h1_again", None, "= alpha, x"),
-        I("remark", None, "plain =text"),
+        I("remark", None, "plain =text"), I("remark_eq", None, "=separator"),
         I("ace1", X("permit", 0, al["host1"], none, al["any"], none)),
         I("ace2", X("deny", 6, al["any"], none, al["net24"], G.PortX("eq", (80,)))),
         I("ace3", X("permit", 17, al["net30"], none, al["any"], none, (), ("log",))),
@@ -153,7 +153,8 @@ def script(idx, prefix, ctx, platform="ios"):
                 acl.group(prefix)
             else:
                 acl.ungroup()
-            acl.resequence(10, 10)
+            # 5, 10, 15, ...: numbers of different width (a textual order would differ)
+            acl.resequence(5, 5)
             if not state("resequence"):
                 return
             numbered = acl.line
